@@ -18,7 +18,7 @@ Inductive skind := SKDir | SKReg | SKSym.
 Record sentry := {
   se_kind : skind;
   se_explicit : bool;      (* false: directory implied by a member below it *)
-  se_perm : Z;             (* permission bits of the tar header *)
+  se_perm : Z;             (* the 12 unix mode bits of the tar header: rwx for u/g/o + setuid, setgid, sticky *)
   se_size : Z;
   se_content : str;
   se_target : str;         (* link name, verbatim *)
@@ -69,7 +69,7 @@ Definition classify (maxb : Z) (layer : nat) (e : entry) : option member :=
       if str_eqb b s_opq then Some (MOpaque d)
       else if has_prefix s_wh b then Some (MWhiteout (d ++ [skipn 4%nat b]))
       else
-        let mk k c t := {| se_kind := k; se_explicit := true; se_perm := e_mode e;
+        let mk k c t := {| se_kind := k; se_explicit := true; se_perm := Z.land (e_mode e) 4095;
                            se_size := Z.of_nat (length c); se_content := c; se_target := t; se_layer := layer |} in
         match e_kind e with
         | KDir => Some (MEntry sg (mk SKDir [] []))
